@@ -879,7 +879,8 @@ class ExcelFormula:
             """
             if exc:
                 capture_error_state(exc, msg)
-                assert 1 == len(error_messages)
+                # messages captured before the exception will not get logged
+                del error_messages[:-1]
             trace, msg = error_messages.pop()
             fmt_str = "{0}Eval: {1}" if msg is None else "{0}Eval: {1}\n{2}"
             error_msg = fmt_str.format(trace, python_code, msg)
